@@ -93,12 +93,17 @@ def impl_eval(case):
                 import contextlib
                 p = os.path.join(d, 'in.csv')
                 open(p, 'w', encoding='utf-8', newline='').write(text)
+                csv_enc = {} if case.get('defaultenc') else {'in_encoding': 'utf-8'}
+                csv_out = {} if case.get('defaultenc') else {'out_encoding': 'utf-8'}
+                if case.get('defaultenc'):       # no --in-encoding / --out-encoding: the platform's text encoding both ways
+                    open(p, 'w', newline='').write(text)
                 with contextlib.redirect_stdout(io.StringIO()):
-                    mci_csv_to_ipm.cli_run(in_filename=p, out_filename=p + '.ipm', in_encoding='utf-8', out_encoding=codec,
-                                           no1014blocking=not blocked)
+                    mci_csv_to_ipm.cli_run(in_filename=p, out_filename=p + '.ipm', out_encoding=codec,
+                                           no1014blocking=not blocked, **csv_enc)
                     mci_ipm_to_csv.cli_run(in_filename=p + '.ipm', out_filename=p + '.out.csv', in_encoding=codec,
-                                           out_encoding='utf-8', no1014blocking=not blocked)
-                got_text = open(p + '.out.csv', 'r', encoding='utf-8', newline='').read()
+                                           no1014blocking=not blocked, **csv_out)
+                got_text = (open(p + '.out.csv', 'r', newline='') if case.get('defaultenc')
+                            else open(p + '.out.csv', 'r', encoding='utf-8', newline='')).read()
             finally:
                 for f in os.listdir(d):
                     os.unlink(os.path.join(d, f))
@@ -185,4 +190,16 @@ def explore(run, tier):
                     rows = [{'MTI': '1240', 'DE2': '5' * 16, 'PDS0158': 'X' + ' ' * (width - 2) + 'X'} for _ in range(6)]
                     cases.append({'rows': rows, 'cols': ['MTI', 'DE2', 'PDS0158'], 'codec': codec, 'b': b, 'cli': True})
                     cases.append({'rows': rows, 'cols': ['MTI', 'DE2', 'PDS0158'], 'codec': codec, 'b': b, 'cli': False})
+    # the command entry points with NO text-encoding option (platform default on both sides) and non-ASCII cells
+    import locale
+    try:
+        'CAFÉ Ölß Ü naïve señor'.encode(locale.getpreferredencoding(False))
+        default_ok = True
+    except (UnicodeError, LookupError):
+        default_ok = False          # a platform whose default text encoding cannot hold these cells: nothing to test
+    for codec in (('latin_1', 'cp500') if default_ok else ()):
+        for b in (0, 1):
+            rows = [{'MTI': '1240', 'DE2': '5' * 16, 'PDS0023': v} for v in ('CAFÉ', 'Ölß Ü', 'naïve señor', 'plain')]
+            cases.append({'rows': rows, 'cols': ['MTI', 'DE2', 'PDS0023'], 'codec': codec, 'b': b, 'cli': True,
+                          'defaultenc': True})
     run.correspond(__name__, cases, use_model=run.use_model, chunk=12)
